@@ -1,6 +1,8 @@
 (* C07 — compound priority is a deterministic, documented function of the DAG. *)
 From Coq Require Import List ZArith Permutation.
 From Tawazi Require Import Graph Closure Priority PriorityFacts Sched SchedInv SchedPrio.
+From Tawazi Require Reconf ReconfFacts.
+From Coq Require Import ZArith.
 Import ListNotations.
 
 (* own priority + the priorities of the SET of distinct descendants, each counted once, however many
@@ -42,3 +44,23 @@ Theorem C07_legacy_order_dependent_refuted :
     tget (legacy_cprio preds prio order1 nodes) n <> tget (legacy_cprio preds prio order2 nodes) n.
 Proof. exact legacy_order_dependent_refuted. Qed.
 Print Assumptions C07_legacy_order_dependent_refuted.
+
+(* the priorities the compound-priority table is recomputed from after a reconfiguration: a node no key
+   reaches keeps its priority, entries that name only is_sequential keep every priority, a step that raises
+   changes nothing *)
+Theorem C07_reconfiguration_frame (nodes : list nat) (tagged : nat -> list nat) (st : Reconf.cstate) (c : Reconf.cstep) (st' : Reconf.cstate) (l : list (nat * Reconf.centry)) (n : nat) :
+  Reconf.step nodes tagged st c = Some st' -> Reconf.expand nodes tagged (Reconf.c_entries c) = Some l -> ~ In n (map fst l) ->
+  Reconf.s_attr st' n = Reconf.s_attr st n.
+Proof. exact (ReconfFacts.step_untouched nodes tagged st c st' l n). Qed.
+Print Assumptions C07_reconfiguration_frame.
+
+Theorem C07_sequential_only_reconfiguration_keeps_priorities (nodes : list nat) (tagged : nat -> list nat) (cs : list Reconf.cstep) (st : Reconf.cstate) :
+  (forall c a e, In c cs -> In (a, e) (Reconf.c_entries c) -> Reconf.e_prio e = None) ->
+  forall n, Reconf.a_prio (Reconf.s_attr (Reconf.run nodes tagged st cs) n) = Reconf.a_prio (Reconf.s_attr st n).
+Proof. exact (ReconfFacts.run_seq_only nodes tagged cs st). Qed.
+Print Assumptions C07_sequential_only_reconfiguration_keeps_priorities.
+
+Theorem C07_raising_reconfiguration_changes_nothing (nodes : list nat) (tagged : nat -> list nat) (st : Reconf.cstate) (c : Reconf.cstep) :
+  Reconf.step nodes tagged st c = None -> Reconf.step_total nodes tagged st c = st.
+Proof. exact (ReconfFacts.step_error_unchanged nodes tagged st c). Qed.
+Print Assumptions C07_raising_reconfiguration_changes_nothing.
